@@ -12,14 +12,17 @@ import chordlabels as cl
 from core import Case
 
 PID = "C11"
-LEAN_MODULES = ["MirProofs.Props.C11"]
+LEAN_MODULES = ["MirProofs.Props.C11", "MirProofs.Props.C11_Labels"]
 RULE = ("label pairs from a pool of ~5200 grammar-valid encodable labels (every shorthand x 5 roots x "
         "{no bass, 11 bass degrees} x {no / added / omitted degree} + N + X + respellings); the estimate shares "
         "the reference root in ~half of the pairs; non-trivial = reference is not X and roots agree")
 ASSUMPTIONS = [
     "labels reach the comparison rules only through chord.encode_many (rows of length 12); the model is "
-    "the row semantics over the encoded triples, the encoder itself is covered by C10",
-    "the quality bitmaps maj/min/7/maj7/min7 are hard-coded in MirModel/ChordCompare.lean (checked against "
+    "the row semantics over the encoded triples; C11_Labels.encode_reachable / encode_many_reachable prove that "
+    "every row the C10 encode model can produce is in the Reachable set of the lattice theorems, and states the "
+    "lattice for labels through labelCmp (= encode both labels, then compare)",
+    "the quality bitmaps maj/min/7/maj7/min7/'' hard-coded in MirModel/ChordCompare.lean are tied to the "
+    "regenerated QUALITIES table by the G-obligation C11_Labels.tables_quality_rows (and still checked against "
     "the code by the correspondence of majmin*/sevenths* on every shorthand)",
 ]
 UNPROVED = []
